@@ -10,6 +10,12 @@ Theorem C31_rfc4180_roundtrip : forall rows : list (list str),
 Proof. exact rfc4180_roundtrip_thm. Qed.
 Print Assumptions C31_rfc4180_roundtrip.
 
+(** the writer of the proposed repair (fixes/C31-csv-rfc4180-reader.patch) is inverted by the same reader *)
+Theorem C31_fixed_writer_roundtrip : forall rows : list (list str),
+  Forall (fun r => r <> []) rows -> rfc_read (fixed_write rows) = Some rows.
+Proof. exact fixed_writer_roundtrip_thm. Qed.
+Print Assumptions C31_fixed_writer_roundtrip.
+
 (** the code's writer + reader (export_csv, import_csv) round-trip under the side condition [csv_safe]
     (no comma, double quote, line feed; no white space at either end) on rectangular tables *)
 Theorem C31_csv_roundtrip : forall (header : list str) (rows : list (list str)),
@@ -51,6 +57,21 @@ Theorem C31_import_only_inserts_csv : forall (sch : list str) (file table : str)
     /\ Forall2 (fun st row => scan_insert table st = Some (map trim hdr, map LStr row)) stmts rows.
 Proof. exact import_only_inserts_csv_thm. Qed.
 Print Assumptions C31_import_only_inserts_csv.
+
+(** positive end-to-end statement for the code as written: a rectangular table of [csv_safe] cells under
+    validated column names, written by export_csv and imported by handle_copy's CSV path, yields one
+    INSERT per row whose literals are exactly the row's cells *)
+Theorem C31_csv_export_import : forall (sch header : list str) (rows : list (list str)) (table : str),
+  header <> [] ->
+  Forall (fun f => csv_safe f = true) header ->
+  Forall (safe_row (length header)) rows ->
+  Forall (fun s => is_ident s = true) sch ->
+  Forall (fun h => exists sc, In sc sch /\ eq_ignore_case sc h = true) header ->
+  exists stmts,
+    copy_import_csv (Some sch) (export_csv header rows) table = Ok stmts
+    /\ Forall2 (fun st row => scan_insert table st = Some (header, map LStr row)) stmts rows.
+Proof. exact csv_export_import_thm. Qed.
+Print Assumptions C31_csv_export_import.
 
 (** import_only_inserts, JSON: true when EVERY object's keys are validated (the repair) ... *)
 Theorem C31_import_only_inserts_json_validated : forall (sch : list str) (objs : list jobj) (table : str)
